@@ -216,6 +216,41 @@ func c16queryEval(c c16qCase) []ev.Finding {
 	return nil
 }
 
+// c16joinEval: a query made of the given statements (each accepted alone) must parse to exactly those statements.
+type c16joinCase struct {
+	Query string   `json:"query"`
+	Parts []string `json:"parts"`
+}
+
+func c16joinEval(c c16joinCase) []ev.Finding {
+	var want []influxql.Statement
+	for _, p := range c.Parts {
+		st, err := influxql.ParseStatement(p)
+		if err != nil {
+			return nil
+		}
+		want = append(want, st)
+	}
+	var got *influxql.Query
+	var err error
+	if p, st := try(func() { got, err = influxql.ParseQuery(c.Query) }); p != nil {
+		return []ev.Finding{{Sig: "panic:ParseQuery", Witness: c.Query, Detail: fmt.Sprint(p) + st, Case: c, Rank: len(c.Query)}}
+	}
+	if err != nil {
+		return []ev.Finding{{Sig: "query-rejected:" + ev.SigSafe(errClass(err.Error())), Witness: c.Query, Detail: err.Error(), Case: c, Rank: len(c.Query)}}
+	}
+	if len(got.Statements) != len(want) {
+		return []ev.Finding{{Sig: "statement-count", Witness: c.Query, Detail: fmt.Sprintf("%d statements, want %d", len(got.Statements), len(want)), Case: c, Rank: len(c.Query)}}
+	}
+	var out []ev.Finding
+	for k := range want {
+		if path, a, b := astx.Diff(astx.Denoted, want[k], got.Statements[k]); path != "" {
+			out = append(out, ev.Finding{Sig: "statement-differs-from-alone", Witness: c.Query, Detail: fmt.Sprintf("statement %d differs at %s: %s vs %s", k, path, a, b), Case: c, Rank: len(c.Query)})
+		}
+	}
+	return out
+}
+
 func init() {
 	register(&Check{ID: "C16", Run: c16run, Replay: func(raw json.RawMessage) []ev.Finding {
 		var probe map[string]json.RawMessage
@@ -223,12 +258,9 @@ func init() {
 			return nil
 		}
 		if _, ok := probe["query"]; ok {
-			var m map[string]string
-			json.Unmarshal(raw, &m)
-			if _, err := influxql.ParseQuery(m["query"]); err != nil {
-				return []ev.Finding{{Sig: "query-rejected:" + ev.SigSafe(errClass(err.Error())), Witness: m["query"], Detail: err.Error()}}
-			}
-			return nil
+			var c c16joinCase
+			json.Unmarshal(raw, &c)
+			return c16joinEval(c)
 		}
 		if _, ok := probe["stmts"]; ok {
 			var c c16qCase
@@ -322,46 +354,25 @@ func c16run(r *ev.Run) {
 	sortStrings(texts)
 	parallelFor(len(texts), func(i int) {
 		t := texts[i]
-		alone, err := influxql.ParseStatement(t)
-		if err != nil {
+		if _, err := influxql.ParseStatement(t); err != nil {
 			return
 		}
 		other := "SELECT a FROM m"
-		oa, _ := influxql.ParseStatement(other)
-		for _, q := range []struct {
-			text string
-			want []influxql.Statement
-		}{
-			{t, []influxql.Statement{alone}}, {t + ";", []influxql.Statement{alone}}, {t + " ;", []influxql.Statement{alone}}, {";" + t, []influxql.Statement{alone}},
-			{t + ";" + other, []influxql.Statement{alone, oa}}, {other + ";" + t, []influxql.Statement{oa, alone}}, {t + "; " + t, []influxql.Statement{alone, alone}},
-			{t + "\n;\n" + other + ";", []influxql.Statement{alone, oa}},
-			{t + ";" + texts[(i+1)%len(texts)], []influxql.Statement{alone, nil}}, // followed by its neighbour in the pool: usually the same form with other values
+		nb := texts[(i+1)%len(texts)] // its neighbour in the pool: usually the same form with other values
+		for _, c := range []c16joinCase{
+			{t, []string{t}}, {t + ";", []string{t}}, {t + " ;", []string{t}}, {";" + t, []string{t}},
+			{t + ";" + other, []string{t, other}}, {other + ";" + t, []string{other, t}}, {t + "; " + t, []string{t, t}},
+			{t + "\n;\n" + other + ";", []string{t, other}}, {t + ";" + nb, []string{t, nb}},
 		} {
-			if q.want[len(q.want)-1] == nil {
-				nb, err := influxql.ParseStatement(texts[(i+1)%len(texts)])
-				if err != nil {
-					continue
-				}
-				q.want[len(q.want)-1] = nb
+			if _, err := influxql.ParseStatement(c.Parts[len(c.Parts)-1]); err != nil {
+				continue
 			}
 			n := r.Eval()
-			r.Trans(int64(len(q.want)))
-			r.State(astx.HashString("Q2|"+q.text), len(q.want) > 1)
-			r.Sample(n, func() interface{} { return q.text })
-			cs := map[string]string{"query": q.text}
-			got, err := influxql.ParseQuery(q.text)
-			if err != nil {
-				r.Report(ev.Finding{Sig: "query-rejected:" + ev.SigSafe(errClass(err.Error())), Witness: q.text, Detail: err.Error(), Case: cs, Rank: len(q.text)})
-				continue
-			}
-			if len(got.Statements) != len(q.want) {
-				r.Report(ev.Finding{Sig: "statement-count", Witness: q.text, Detail: fmt.Sprintf("%d statements, want %d", len(got.Statements), len(q.want)), Case: cs, Rank: len(q.text)})
-				continue
-			}
-			for k := range q.want {
-				if path, a, b := astx.Diff(astx.Denoted, q.want[k], got.Statements[k]); path != "" {
-					r.Report(ev.Finding{Sig: "statement-differs-from-alone", Witness: q.text, Detail: fmt.Sprintf("statement %d differs at %s: %s vs %s", k, path, a, b), Case: cs, Rank: len(q.text)})
-				}
+			r.Trans(int64(len(c.Parts)))
+			r.State(astx.HashString("Q2|"+c.Query), len(c.Parts) > 1)
+			r.Sample(n, func() interface{} { return c.Query })
+			for _, f := range c16joinEval(c) {
+				r.Report(f)
 			}
 		}
 	})
